@@ -320,6 +320,11 @@ class SourceFile:
         parts = path.split("::")
         cands = self._find(self.items, parts)
         cands = [c for c in cands if not c.is_cfg_test()]
+        if len(cands) > 1:
+            # a macro_rules! of the same name as an item is never what a directive means
+            nm = [c for c in cands if c.kind not in ("macro_rules", "macro_call")]
+            if len(nm) == 1:
+                cands = nm
         if len(cands) != 1:
             raise KeyError("%s: %d candidates for %s" % (self.path, len(cands), path))
         return cands[0]
